@@ -272,14 +272,65 @@ def part_a_graphs(ck, replay):
     ck.cov["a_include_graphs_package_count_equals_reachable_set"] = match
 
 
+def part_a_budget(ck, replay):
+    """bounded memory of the java/archive extractor (ArchiveBudget.tla): real jars with nested valid / invalid archives
+    extracted under budgets around every prefix sum; the recorded facts are judged by TLC"""
+    import tempfile, shutil
+    for cfg, inv in (("ArchiveBudget-sanity.cfg", "GSanity"), ("ArchiveBudget-dev.cfg", "GDevBounded")):
+        s = vf.tlc("ArchiveBudget", cfg, workers=2, collect=False, timeout=120)
+        if s.violated != inv:
+            raise vf.NotAVerdict("ArchiveBudget: %s not violated under %s (vacuous model)" % (inv, cfg))
+    r = vf.require_ok(vf.tlc("ArchiveBudget", "ArchiveBudget-gen.cfg", workers=4, collect=False, timeout=600), "ArchiveBudget-gen.cfg")
+    ck.add_tlc("ArchiveBudget-gen.cfg", r, "MaxEntries = 4 Sizes = {1,2,3} Budgets = {0..7,9,12} Tops = {1,3}")
+    outs = vf.run_harness("vmut", "archivebudget", [], timeout=900)
+    facts = sorted(outs, key=lambda f: f["n"])
+    if len(facts) < 1000 or [f["n"] for f in facts] != list(range(1, len(facts) + 1)):
+        raise vf.NotAVerdict("archivebudget produced %d (misnumbered?) facts" % len(facts))
+    if replay is not None:
+        facts = [f for f in facts if f["sizes"] == replay["fact"]["sizes"] and f["valid"] == replay["fact"]["valid"] and f["budget"] == replay["fact"]["budget"]]
+        for i, f in enumerate(facts):
+            f["n"] = i + 1
+    tmpd = tempfile.mkdtemp(prefix="vc02ab-")
+    try:
+        fp = os.path.join(tmpd, "facts.ndjson")
+        with open(fp, "w") as fh:
+            for f in facts:
+                fh.write(json.dumps(f) + "\n")
+        os.environ["VERIF_FACTS"] = fp
+        r = vf.tlc("ArchiveBudget", "ArchiveBudget-facts.cfg", workers=4, collect=False, timeout=900)
+        ck.add_tlc("ArchiveBudget-facts.cfg", r, "facts=%d (VERIF_FACTS)" % len(facts))
+        if not r.ok:
+            if r.violated not in ("FactConforms", "FactBounded"):
+                vf.log(r.output_tail[-3000:])
+                raise vf.NotAVerdict("ArchiveBudget facts cfg failed without naming a clause")
+            rep = vf.tlc("ArchiveBudget", "ArchiveBudget-report.cfg", workers=4, timeout=900)
+            if not rep.ok or not rep.cases:
+                vf.log(rep.output_tail[-3000:])
+                raise vf.NotAVerdict("ArchiveBudget report cfg failed")
+            bad = sorted(rep.cases, key=lambda c: c["n"])
+            for c in bad[:6]:
+                f = facts[c["n"] - 1]
+                ck.violation("java/archive does not keep to its byte budget: nested archives of %s bytes (valid: %s) in a %d-byte jar, MaxOpenedBytes %d: "
+                             "reported memory-limit error=%s, UncompressedBytes=%d, nested packages=%d; the specification says %s [%d fact(s) fail]"
+                             % (f["sizes"], f["valid"], f["top"], f["budget"], f["memlim"], f["uncompressed"], f["nested_pkgs"], c["want"], len(bad)),
+                             {"part": "a", "kind": "archivebudget", "fact": f, "want": c["want"]})
+    finally:
+        shutil.rmtree(tmpd, ignore_errors=True)
+    ck.count(len(facts))
+    ck.cov["traces_validated_against_impl"] += len(facts)
+    ck.cov["a_archive_budget_facts"] = len(facts)
+
+
 def main():
     a = args.parse()
     ck = vf.Check("C02", "exploration", tier=a.tier, seed=a.seed)
     replay = None
     if a.replay:
         replay = json.load(open(a.replay))["replay"]
-    if replay is None or (replay.get("part") == "a" and replay.get("kind") != "incgraph"):
+    if replay is None or (replay.get("part") == "a" and replay.get("kind") not in ("incgraph", "archivebudget")):
         part_a(ck, replay)
+    if replay is None or (replay.get("part") == "a" and replay.get("kind") == "archivebudget"):
+        part_a_budget(ck, replay)
     if replay is None or (replay.get("part") == "a" and replay.get("kind") == "incgraph"):
         part_a_graphs(ck, replay)
     try:
@@ -295,6 +346,7 @@ def main():
                       "plans with member k act on the decompressed content of the k-th entry of a zip/jar/egg fixture (re-packed); companion units apply the "
                       "depth-1 plans to a file the extractor reads next to a valid required file (os-release, go.sum, parent pom, locale messages, containerd snapshot db); "
                       "plus every include graph of IncludeGraph.tla (3 requirements files, 512 edge sets x 8 package subsets) through the real requirements extractor; "
+                      "plus the byte budget of java/archive (ArchiveBudget.tla): 340 jars with 1..4 nested valid / invalid archives x budgets around every prefix sum; "
                       "distinct_nontrivial = evaluated <extractor, fixture+path, plan> triples whose mutated bytes differ from the fixture (+ include graphs that include a package-less file)")
     ck.assumptions += ["(a) exploration, not proof: the grammar is bounded (grid spans, 3 occurrence selectors, 4 nesting depths, 64-byte header windows, zip records) and mutated files are clamped to 1 MiB",
                        "(a) the rpm extractor is instantiated with Config.Timeout = 1 s (its own bound for corrupt Berkeley DBs, default 5 min) and must honour it; every other extractor runs as list.go constructs it",
